@@ -249,6 +249,10 @@ class TDS(BaseRoutine):
             self.streaming_init()
             self.streaming_step()
 
+        # apply the events scheduled exactly at the initial time (after the initialization test)
+        if self.data_csv is None:
+            self.do_switch()
+
         # if `dae.n == 1`, `calc_h_first` depends on new `dae.gy`
         self.calc_h()
 
@@ -612,11 +616,6 @@ class TDS(BaseRoutine):
 
         # do not skip over the end time
         self.h = max(min(self.h, config.tf - system.dae.t), 0)
-
-        # skip the first switch at the exact first time step to avoid h == 0
-        if self._switch_idx < system.n_switches:
-            if (not resume) and (system.dae.t == system.switch_times[self._switch_idx]):
-                self._switch_idx += 1
 
         # do not skip over event switch_times
         if self._switch_idx < system.n_switches:
